@@ -24,6 +24,8 @@ where
 
     let mut records: Vec<Record> = vec![];
     let index_size = loop {
+        #[cfg(feature = "verif")]
+        crate::verif::emit(crate::verif::Event::Tick(crate::verif::TICK_XZ_BLOCK));
         let mut count_input = util::CountBufRead::new(input);
         let header_size = count_input.read_u8()?;
         lzma_info!("XZ block header_size byte: 0x{:02x}", header_size);
@@ -116,6 +118,10 @@ where
         }
 
         for (i, record) in records.iter().enumerate() {
+            #[cfg(feature = "verif")]
+            crate::verif::emit(crate::verif::Event::Tick(
+                crate::verif::TICK_XZ_INDEX_RECORD,
+            ));
             lzma_info!("XZ index checking record {}: {:?}", i, record);
 
             let unpadded_size = get_multibyte(&mut digested)?;
@@ -147,6 +153,8 @@ where
     {
         let mut digested = util::CrcDigestRead::new(count_input, &mut digest);
         for _ in 0..padding_size {
+            #[cfg(feature = "verif")]
+            crate::verif::emit(crate::verif::Event::Tick(crate::verif::TICK_XZ_PADDING));
             let byte = digested.read_u8()?;
             if byte != 0 {
                 return Err(error::Error::XzError(
@@ -270,6 +278,8 @@ where
         check_method
     );
     for _ in 0..padding_size {
+        #[cfg(feature = "verif")]
+        crate::verif::emit(crate::verif::Event::Tick(crate::verif::TICK_XZ_PADDING));
         let byte = count_input.read_u8()?;
         if byte != 0 {
             return Err(error::Error::XzError(
